@@ -5,4 +5,5 @@ From Verif Require Import Lib.Bytes Model.Wire Model.TxCodec Model.Sighash Crypt
 Extraction Language OCaml.
 Extraction "../ocaml/c01_model.ml" bz zb sha256d hash160
   lib_signature_at lib_signature_hash_at lib_digest_at lib_verify_digest_at lib_script_code lib_bip143_preimage_at
-  lib_legacy_preimage_at spec_script_code spec_bip143_preimage spec_legacy_preimage spec_preimage spec_digest.
+  lib_legacy_preimage_at spec_script_code spec_bip143_preimage spec_legacy_preimage spec_preimage spec_digest
+  in32 lib_new lib_ctor ob_fresh ob_build_api lib_apply ob_run ob_fields ob_signature.
